@@ -152,6 +152,64 @@ def sweep_topology(quick):
                 yield {"sweep": "topology", "model": m, "flips": [list(e1), list(e2)]}
 
 
+def sweep_slots(quick):
+    """reference lists that are NOT packed from their first slot: every assignment of the four sample slots of a partial
+    over {unused, s0, s1, s5}; sparse partial / patch / performance lists (first slot unused, gaps, last slot used)"""
+    alpha = (-1, 0, 5) if quick else (-1, 0, 1, 5)
+    for slots in itertools.product(alpha, repeat=4):
+        m = base_topology()
+        m["partials"][0]["samples"] = list(slots)
+        yield {"sweep": "slots", "model": m, "flips": ["sample-slots", list(slots)]}
+    for lst in ([-1, 0, 1], [0, -1, 1], [-1, -1, 1, -1, 0], [-1] * 87 + [1], [1] + [-1] * 86 + [0]):
+        m = base_topology()
+        m["patches"][0]["partials"] = list(lst)
+        yield {"sweep": "slots", "model": m, "flips": ["partial-list", [i for i, x in enumerate(lst) if x >= 0]]}
+    for lst in ([-1, 0, 1], [0, -1, 1], [-1] * 31 + [0], [1] + [-1] * 30 + [0]):
+        m = base_topology()
+        m["performances"][0]["patches"] = list(lst)
+        yield {"sweep": "slots", "model": m, "flips": ["patch-list", [i for i, x in enumerate(lst) if x >= 0]]}
+    for lst in ([-1, 0, 1], [1, -1, 0], [-1] * 63 + [1], [0] + [-1] * 62 + [1]):
+        m = base_topology()
+        m["volumes"][0]["perfs"] = list(lst)
+        yield {"sweep": "slots", "model": m, "flips": ["performance-list", [i for i, x in enumerate(lst) if x >= 0]]}
+
+
+def sweep_fat_header(quick):
+    """the redundant words of the FAT area (free-cluster count in word 1, version flags in the last two words) take
+    consistent, stale and garbage values; chains of 1..4 clusters in ascending and descending order"""
+    for free in (0, 1, 2, 0xFFF0 - 6, 0x8000, 0xFFF1, 0xFFF7, 0xFFFE, 0xFFFF):
+        for ver in (1, 2):
+            for m_ in (1, 2, 4):
+                for rev in (False, True):
+                    ch = list(range(2, 2 + m_))
+                    if rev:
+                        if m_ == 1:
+                            continue
+                        ch = ch[::-1]
+                    m = simple_model({0: {"name": "HDR", "chain": ch, "points": [0, 0, CW * m_ - 3, 0, 50], "mode": 0, "seq": 4},
+                                      1: {"name": "TWO", "chain": [9, 8], "points": [0, 0, CW + 5, 0, 50], "mode": 0, "seq": 5}}, ver)
+                    m["free_count"] = free
+                    yield {"sweep": "fatheader", "model": m}
+
+
+R_NAME_FAMILIES = {"dots": ["KICK.1", "KICK.2", "V1.5 PAD"], "dotend": ["A.", "B.", ".C"], "dash": ["A-", "B-", "-C"],
+                   "symbols": ["A#B", "A&B", "A'B"], "case": ["kick", "Kick", "KICK"], "digits": ["1", "2", "10"],
+                   "long16": ["ABCDEFGHIJKLMNOP", "ABCDEFGHIJKLMNOQ", "ABCDEFGHIJKLMN.P"], "spaces": ["A B", "A  B", "A B C"]}
+
+
+def sweep_names(quick):
+    """names in the shapes naming code treats specially, at sample and at volume / performance level; judged by content
+    only (one file per referenced sample with exactly its audio) -- the names themselves are C06's business"""
+    for fam in sorted(R_NAME_FAMILIES):
+        for outer in (("VOL", "PERF"), ("VOL 1.5", "P.1"), ("V.", "P-")):
+            samples = {i: {"name": nm, "chain": [2 + 2 * i, 3 + 2 * i][::-1] if i == 1 else [2 + 2 * i],
+                           "points": [0, 0, 100 + 50 * i, 0, 20], "mode": 0, "freq": i, "seq": 20 + i}
+                       for i, nm in enumerate(R_NAME_FAMILIES[fam])}
+            m = simple_model(samples)
+            m["volumes"][0]["name"], m["performances"][0]["name"] = outer
+            yield {"sweep": "names", "family": fam, "model": m}
+
+
 def norm_model(m):
     """JSON round trip turns int keys into strings: normalise back."""
     m = copy.deepcopy(m)
@@ -162,7 +220,7 @@ def norm_model(m):
 
 def nontrivial(case):
     m = case["model"]
-    if case["sweep"] == "topology":
+    if case["sweep"] in ("topology", "slots"):
         return bool(case.get("flips"))
     for s in m["samples"].values():
         ch = s["chain"]
@@ -183,6 +241,19 @@ def run_case(case):
         return False, "hang", {"observed": "non-termination (cpu budget)"}
     if res["status"] == "exc":
         return False, "raised:" + exc_sig(res["exc"]), {"observed": repr(res["exc"])[:300], "files": sorted(res["files"])[:5]}
+    if case["sweep"] == "names":
+        from mcv.ref import riff
+        got = []
+        for p_, b_ in res["files"].items():
+            w = riff.validate(b_)
+            if w.errors:
+                return False, "invalid-wav", {"path": p_, "errors": w.errors[:2]}
+            got.append((w.fmt["channels"], w.fmt["rate"], w.data))
+        want = sorted(expected.values())
+        if sorted(got) != want or len(res["reported"]) != len(want):
+            return False, "names:samples-lost-or-changed", {"samples": sorted(expected), "files": sorted(res["files"]),
+                                                            "reported": res["reported"]}
+        return True, f"ok-by-content:{len(want)}files", None
     errs = tree.compare_export(expected, res["files"], res["reported"])
     if errs:
         kind = "pathset" if "path sets" in errs[0] else ("pcm" if "pcm differs" in errs[0] else "wav")
@@ -200,14 +271,17 @@ class Check(CheckBase):
             "the field the mode selects with a conflicting value in the other x chain order; (endmarks) every end-of-chain word 0xFFF8..0xFFFF x chain length x order; (header) 6 frequency codes "
             "x FAT version x key x name padding; (topology) base reference graph + every single edge flip of "
             "volume->performance->patch->partial->sample relations [thorough: all pairs of flips], no volumes, four "
-            "samples per partial, unreferenced sample, orphan performance. non-trivial = permuted chain, cluster_top>0, "
+            "samples per partial, unreferenced sample, orphan performance; (slots) every assignment of a partial's four sample "
+            "slots over {unused, 3 samples}, sparse partial / patch / performance lists incl. the last slot; (fatheader) "
+            "free-cluster count word x FAT version x chain length 1,2,4 x order; (names) 8 families of special name shapes x "
+            "3 volume/performance names, judged by content only. non-trivial = permuted chain, cluster_top>0, "
             "reverse mode, window ending on a cluster boundary, or a flipped edge")
     assumptions = ["independent S-7xx writer (mcv/gen/roland.py) and RIFF walker are correct",
                    "names plain and collision-free (collisions: C05/C06)"]
 
     def shards(self):
         cases = []
-        for sw in (sweep_window, sweep_header, sweep_endmarks, sweep_chains, sweep_topology):
+        for sw in (sweep_window, sweep_header, sweep_fat_header, sweep_endmarks, sweep_chains, sweep_topology, sweep_slots, sweep_names):
             cases.extend(sw(self.quick))
         return self.chunk(cases, 6 if self.quick else 20)
 
